@@ -24,6 +24,7 @@ import (
 	"math"
 	"sort"
 	"strings"
+	"unicode/utf8"
 
 	c "verifharness/common"
 )
@@ -80,8 +81,26 @@ func covers(pattern, url string) bool {
 	return true
 }
 
+// canon: a key as the text it denotes.  The state file is JSON, so a byte that
+// is not valid UTF-8 cannot be told from U+FFFD once written; the property
+// speaks of endpoints, consumers and interceptors, not of byte strings, so the
+// expectation is computed on the text: ill-formed bytes read as U+FFFD, and a run
+// of replacement characters as one (whether an implementation replaces per byte
+// or per run is not fixed by the property).
+func canon(s string) string {
+	s = strings.ToValidUTF8(s, "\uFFFD")
+	for strings.Contains(s, "\uFFFD\uFFFD") {
+		s = strings.ReplaceAll(s, "\uFFFD\uFFFD", "\uFFFD")
+	}
+	return s
+}
+
+func validKeys(r Rec) bool {
+	return utf8.ValidString(r.Method) && utf8.ValidString(r.URL) && utf8.ValidString(r.Cons) && utf8.ValidString(r.Icpt)
+}
+
 func plainURL(u string) bool {
-	return !strings.ContainsAny(u, "{}*:") && !strings.Contains(u, "//") && !strings.HasSuffix(u, "/")
+	return utf8.ValidString(u) && !strings.ContainsAny(u, "{}*:") && !strings.Contains(u, "//") && !strings.HasSuffix(u, "/")
 }
 
 type totals struct {
@@ -102,12 +121,12 @@ func totalsOfRecords(rs []Rec) totals {
 		}
 		t.n++
 		t.byStatus[r.Status]++
-		t.byMethod[r.Method]++
+		t.byMethod[canon(r.Method)]++
 		tag := r.Cons
 		if tag == "" {
 			tag = "N/A"
 		}
-		t.byTag[tag]++
+		t.byTag[canon(tag)]++
 		if r.TS < t.min {
 			t.min = r.TS
 		}
@@ -127,8 +146,8 @@ func totalsOfAggs(es []EndpointObs) totals {
 		for _, s := range e.Statuses {
 			t.byStatus[s.Status] += s.Count
 		}
-		t.byMethod[e.Method] += e.Count
-		t.byTag[e.Consumer] += e.Count
+		t.byMethod[canon(e.Method)] += e.Count
+		t.byTag[canon(e.Consumer)] += e.Count
 		if e.Min < t.min {
 			t.min = e.Min
 		}
@@ -225,7 +244,7 @@ func conservation(k *Case, r *RunObs, add func(sig, dem, obs string)) {
 	// attribution through the URL pattern (streams of plain URLs only)
 	plain := true
 	for _, rec := range k.Records {
-		if !plainURL(rec.URL) {
+		if !plainURL(rec.URL) || !validKeys(rec) {
 			plain = false
 		}
 	}
@@ -285,7 +304,7 @@ func conservation(k *Case, r *RunObs, add func(sig, dem, obs string)) {
 		if len(p) != 2 {
 			continue
 		}
-		key := [2]string{p[0], p[1]}
+		key := [2]string{canon(p[0]), canon(p[1])}
 		if t, ok := want[key]; !ok || rec.TS > t {
 			want[key] = rec.TS
 		}
@@ -293,7 +312,10 @@ func conservation(k *Case, r *RunObs, add func(sig, dem, obs string)) {
 	if !rejected {
 		got := map[[2]string]int64{}
 		for _, i := range r.Final.Interceptors {
-			got[[2]string{i.Type, i.Version}] = i.TS
+			key := [2]string{canon(i.Type), canon(i.Version)}
+			if t, ok := got[key]; !ok || i.TS > t {
+				got[key] = i.TS
+			}
 		}
 		for key, t := range want {
 			g, ok := got[key]
